@@ -393,7 +393,7 @@ def _run_ops(ops):
         if c in ("sync", "synck"):
             s = int(w[1])
             offs = tuple(int(x) for x in w[3].split(","))
-            smer_alph = align.KmerAlphabet(st["base"], s) if s < st["k"] else None
+            smer_alph = align.KmerAlphabet(st["base"], s)
             perm = mkperm(w[2], smer_alph)
             sel = align.SyncmerSelector(st["base"], st["k"], s, perm, offs)
             if c == "sync":
@@ -422,8 +422,18 @@ def _run_ops(ops):
 _CACHE = {}
 
 
+def _preload():
+    """Import the real modules in the parent so that forked children do not pay for the import."""
+    import numpy  # noqa: F401
+
+    import biotite.sequence  # noqa: F401
+    import biotite.sequence.align  # noqa: F401
+    from biotite.sequence.align import kmertable, permutation  # noqa: F401
+
+
 def run_impl(case):
     from common import sandbox
+    _preload()
     key = "\n".join(case["ops"])
     r = sandbox.run_forked(_run_ops, case["ops"], timeout=120)
     if r[0] == "ok":
@@ -729,6 +739,7 @@ def oracle(case):
 def _oracle_mincode_dtype(case):
     """The documented return value is an index array ("the sequence indices where the Mincode k-mers start")."""
     from common import sandbox
+    _preload()
 
     def f():
         import numpy as np
@@ -749,6 +760,7 @@ def _oracle_mincode_dtype(case):
 def _oracle_similarity(case):
     """match with a ScoreThresholdRule = all (i, ref, j) whose k-mers score >= threshold (brute force)."""
     from common import sandbox
+    _preload()
     n, k, nb = case["n"], case["k"], case["nb"]
     mat, thr = case["matrix"], case["threshold"]
     refs, query = case["refs"], case["query"]
@@ -968,8 +980,7 @@ def _selector_case(rng):
         offs = rng.sample(range(-window, window), rng.randint(1, min(3, window)))
         if rng.random() < 0.05:
             offs.append(window)
-        ssize = n ** s if 2 <= s < k else 4
-        perm = _perm(rng, ssize)
+        perm = _perm(rng, n ** s) if 2 <= s < k else rng.choice(["-", "rand"])
         if kind == "sync":
             length = k + rng.choice([-1, 0, 0, 1, 2, 5, 9, 14])
             ops.append(f"sync {s} {perm} {','.join(map(str, offs))} {_nats(_seq(rng, n, length, rng.random() < 0.5))}")
@@ -1060,7 +1071,7 @@ def _similarity_case(rng):
 
 
 def cases(rng, tier):
-    nt, ns, nm, nsim = (420, 330, 70, 40) if tier == "quick" else (5000, 4000, 600, 400)
+    nt, ns, nm, nsim = (800, 600, 120, 60) if tier == "quick" else (5000, 4000, 600, 400)
     for _ in range(nt):
         yield _table_case(rng)
     for _ in range(ns):
